@@ -5,6 +5,10 @@ ROOT = os.path.dirname(os.path.dirname(os.path.abspath(__file__)))
 
 # pid -> (technique, level text, level_note, design_ref)
 CHECKS = {
+ "C15": ("TLA+ model of BlockChain/ChainFinder (one step per set.pop) refined to the ChainTrack property spec, exhaustive TLC; every TLC behaviour replayed on BlockChain under all relabellings; recorded runs validated by TLC trace spec",
+         "TLC explores every acyclic parent function on N<=4 (thorough 5) headers, every batching, every pop order, duplicates, weights and locks, checking canonical-form invariants and refinement to the property spec; every API-level behaviour of that model is executed on the real BlockChain under every relabelling (which steers set.pop order) and must produce an allowed observable state after each call; seeded random runs of the real code (N<=8) are validated as traces by TLC with the pop order inferred.",
+         "Trusted: TLC/SANY, CPython; weights positive; bounds N<=4/5 exhaustive, N<=8 traced. The model's Pop order independence (invariant Canonical) justifies replaying with one pop order per relabelling.",
+         "DESIGN.md section 4 C15"),
 }
 
 NOT_APPLICABLE = {
